@@ -108,7 +108,7 @@ func (c *client) SendRPC(rpc hrpc.Call) (msg proto.Message, err error) {
 		switch err.(type) {
 		case region.RetryableError:
 			sp.AddEvent("retrySleep")
-			backoff, err = sleepAndIncreaseBackoff(ctx, backoff)
+			backoff, err = sleepAndIncreaseBackoffOrClosed(ctx, c.done, backoff)
 			if err != nil {
 				return msg, err
 			}
@@ -123,7 +123,7 @@ func (c *client) SendRPC(rpc hrpc.Call) (msg proto.Message, err error) {
 			// still refuses the request (its WAL is closed, say).
 			if serverErrorCount > 1 {
 				sp.AddEvent("retrySleep")
-				backoff, err = sleepAndIncreaseBackoff(ctx, backoff)
+				backoff, err = sleepAndIncreaseBackoffOrClosed(ctx, c.done, backoff)
 				if err != nil {
 					return msg, err
 				}
@@ -361,7 +361,7 @@ func (c *client) SendBatch(ctx context.Context, batch []hrpc.Call) (
 		if needBackoff {
 			sp.AddEvent("retrySleep")
 			var err error
-			backoff, err = sleepAndIncreaseBackoff(ctx, backoff)
+			backoff, err = sleepAndIncreaseBackoffOrClosed(ctx, c.done, backoff)
 			if err != nil {
 				break
 			}
@@ -643,7 +643,7 @@ func (c *client) lookupRegion(ctx context.Context,
 			"key", strconv.Quote(string(key)), "backoff", backoff, "err", err)
 
 		// This will be hit if there was an error locating the region
-		backoff, err = sleepAndIncreaseBackoff(ctx, backoff)
+		backoff, err = sleepAndIncreaseBackoffOrClosed(ctx, c.done, backoff)
 		if err != nil {
 			return nil, "", err
 		}
@@ -687,7 +687,7 @@ func (c *client) lookupAllRegions(ctx context.Context,
 			"backoff", backoff, "err", err)
 
 		// This will be hit if there was an error locating the region
-		backoff, err = sleepAndIncreaseBackoff(ctx, backoff)
+		backoff, err = sleepAndIncreaseBackoffOrClosed(ctx, c.done, backoff)
 		if err != nil {
 			return nil, err
 		}
@@ -984,7 +984,7 @@ func (c *client) establishRegion(reg hrpc.RegionInfo, addr string) {
 	var backoff time.Duration
 	var err error
 	for {
-		backoff, err = sleepAndIncreaseBackoff(reg.Context(), backoff)
+		backoff, err = sleepAndIncreaseBackoffOrClosed(reg.Context(), c.done, backoff)
 		if err != nil {
 			// region is dead
 			reg.MarkAvailable()
@@ -1127,6 +1127,14 @@ var sleepAndIncreaseBackoffOverride func(
 	ctx context.Context, backoff time.Duration) (time.Duration, error)
 
 func sleepAndIncreaseBackoff(ctx context.Context, backoff time.Duration) (time.Duration, error) {
+	return sleepAndIncreaseBackoffOrClosed(ctx, nil, backoff)
+}
+
+// sleepAndIncreaseBackoffOrClosed is sleepAndIncreaseBackoff for a client
+// whose done channel is closed by Close(): nobody is interested in what
+// comes after the sleep then, and it can last half a minute.
+func sleepAndIncreaseBackoffOrClosed(ctx context.Context, closed <-chan struct{},
+	backoff time.Duration) (time.Duration, error) {
 	if sleepAndIncreaseBackoffOverride != nil {
 		return sleepAndIncreaseBackoffOverride(ctx, backoff)
 	}
@@ -1138,6 +1146,8 @@ func sleepAndIncreaseBackoff(ctx context.Context, backoff time.Duration) (time.D
 	case <-time.After(backoff):
 	case <-ctx.Done():
 		return 0, ctx.Err()
+	case <-closed:
+		return 0, ErrClientClosed
 	}
 
 	// Keep track of the amount of time spend sleeping in retry backoff. Ignore if context was
